@@ -202,7 +202,7 @@ def _actions(r):
 
 
 PROPS["C10"] = {
-    "theorem_modules": ["Sidetree.Props.C10"],
+    "theorem_modules": ["Sidetree.Props.C10", "Sidetree.Props.C10Rfc"],
     "prescribes": "Sidetree.Composer.applyPatches with Sidetree.JsonPatch.Lib (Props.C10); RFC 6902 side: Sidetree.JsonPatch.Rfc.applyOp",
     "obligations": [
         {"name": "C10_composerShape", "facts": ["composerDispatch", "applyJSONShape"]}, {"name": "Shape_Composer", "facts": "module:Composer"},
@@ -219,7 +219,7 @@ PROPS["C10"] = {
             "resulting document (as a value), nil-on-error, and that neither input changed. In addition every ietf operation is run through RFC 6902 as written; a case where the "
             "library (and the implementation) deviates is a property-level violation classified by operation kind and relation. Non-trivial = list applied; distinct = distinct (doc, patches).",
     "technique": "Lean 4 theorems (per-action semantics = declarative spec, fold, unique-id invariant) + faithful library model vs RFC 6902 model + differential correspondence",
-    "level_text": "Proved in Lean: ApplyPatches is the left fold of the per-action step with first-failure abort; add-keys/add-services = upsert-by-id spec (existing order kept, replaced in place, "
+    "level_text": "Proved in Lean (Props/C10Rfc.lean): on array-free walks the library model and RFC 6902 as written agree outcome for outcome (success and refusal) for add and remove and for replace of an existing member (add_agree, remove_agree, replace_agree_existing; walk_agree by induction over the pointer), the library's replace is RFC add there (replace_is_rfc_add), and what the RFC accepts the library does alike (replace_le); the deviations inside the attempted fragment are kernel-evaluated examples (pointer without leading slash, replace of a missing member, add without value, index spellings 01 and -1). Proved in Lean: ApplyPatches is the left fold of the per-action step with first-failure abort; add-keys/add-services = upsert-by-id spec (existing order kept, replaced in place, "
                   "new entries appended), remove = filter by id (unknown ids ignored), also-known-as = ordered union / difference, replace = exactly the given keys and services; unique ids are "
                   "preserved by every validated non-ietf patch and by ietf patches (via C11). The ietf action is modelled twice - the pinned library as it behaves (validated against the "
                   "implementation on every case) and RFC 6902 as written - and the check reports every operation where the two part ways. wellformed_invariant: every validated patch keeps publicKey and service lists of objects and nothing else (no entry a later patch would skip).",
@@ -708,7 +708,7 @@ def _c18_info_property(r):
 
 
 PROPS["C18"] = {
-    "theorem_modules": ["Sidetree.Props.C18"],
+    "theorem_modules": ["Sidetree.Props.C18", "Sidetree.Props.C18Base58"],
     "prescribes": "Sidetree.Transformer.transform (Props.C18)",
     "obligations": [{"name": "Shape_Transformer", "facts": "module:Transformer"}, {"name": "C18_tables", "facts": ["keyContexts", "purposeSwitch", "sortCmp"]}],
     "streams": [{"gen": "C18", "quick": 4000, "thorough": 200000}, {"gen": "C18info", "quick": 600, "thorough": 20000}],
@@ -727,7 +727,7 @@ PROPS["C18"] = {
             "(operation lists as multisets: the order among equal (time, number) is open), and - on the implementation's own lists - that they are in (time, number) order, the number of an "
             "unpublished operation being read from the request the harness plants. Non-trivial = transformed; distinct = distinct (state, info, options).",
     "technique": "Lean 4 theorems (sorted permutation, de-duplication, per-key fields, relationships, contexts, metadata table) + go/ast table obligations + differential correspondence",
-    "level_text": "Proved in Lean: operations are listed as a permutation of the input sorted lexicographically by (transaction time, transaction number); the published list has no canonical "
+    "level_text": "Proved in Lean (Props/C18Base58.lean, Lemmas/Base58.lean): base58 is lossless (base58_roundtrip against a decoder mirroring btcutil's, every length, leading zero bytes included), so the publicKeyBase58 / publicKeyMultibase text the transformer writes for an Ed25519 key decodes back to the key and equal texts mean equal keys (ed2018_key_recoverable, ed2018/ed2020_same_text_same_key). Proved in Lean: operations are listed as a permutation of the input sorted lexicographically by (transaction time, transaction number); the published list has no canonical "
                   "reference twice, loses none, and is a sorted sublist; every internal key yields exactly one verification method with id DID#id (or #id under @base), its type and "
                   "controller = DID; JWK material is preserved and Ed25519 2018/2020 keys are converted to base58 / multibase(z-base58); a key is referenced from a relationship iff one of "
                   "its purposes names it (with multiplicity); key contexts have no duplicates; every service carries qualified id, type, endpoint; the metadata table (deactivated, canonical "
